@@ -547,3 +547,527 @@ def replay(path):
         prob = same_structure(s2, s)
     print("problem:", prob)
     return 1 if prob else 0
+
+
+# ----------------------------------------------------------------------------------------------------------------
+# Row phase (T9): the 26 `_tr_*` setters, `_get_atom_setters`, the site loop and the aniso loop, before expansion.
+# Model: DS.Model.CifRow through the driver (`cifrow.parse`); tie: DS.Props.SrcCifRow (translate/src_cifrow.py).
+
+ROW_SITE_NUMERIC = ["_atom_site_fract_x", "_atom_site_fract_y", "_atom_site_fract_z",
+                    "_atom_site_Cartn_x", "_atom_site_Cartn_y", "_atom_site_Cartn_z",
+                    "_atom_site_U_iso_or_equiv", "_atom_site_B_iso_or_equiv", "_atom_site_occupancy"]
+ROW_ANISO_U = ["_atom_site_aniso_U_%s" % ij for ij in ("11", "22", "33", "12", "13", "23")]
+ROW_ANISO_B = ["_atom_site_aniso_B_%s" % ij for ij in ("11", "22", "33", "12", "13", "23")]
+ROW_UNKNOWN = ["_atom_site_calc_flag", "_atom_site_foo", "_atom_site_symmetry_multiplicity", "_atom_site_Wyckoff_symbol",
+               "_atom_site_fract_w", "_atom_site_aniso_U_21", "_atom_site_u_iso", "_atom_site_ignore", "_ignore"]
+ROW_ANISO_UNKNOWN = ["_atom_site_aniso_type_symbol", "_atom_site_aniso_ratio", "_atom_site_aniso_U_32"]
+ROW_ADP_WORDS = ["Uiso", "Uani", "Biso", "Bani", "Uovl", "Umpe", "uiso", "UISO", "?", ".", "Uij", "Bovl"]
+ROW_TYPE_WORDS = ["Na1+", "O2-", "C", "13-C", "Fe3+", "cl1-", "H", ".", "?", "zr", "Wat", "CA2+", "2-H1+", "D", "Cu+", "12", "O-2", "oX1-x"]
+ROW_LABEL_WORDS = ["Na1", "O2", "C13", "Fe", "cl1a", "H1_2", "Zr01", "13-C2", "Ca2+x", "o", "X9", "1a", "Te(1)", "na", "Q-", "Wat5"]
+_ROW_RX = None
+
+
+def _row_number(txt):
+    """what a number reader built on the CIF grammar gives for `txt` (independent of the code under test)"""
+    global _ROW_RX
+    import re
+    if _ROW_RX is None:
+        _ROW_RX = re.compile(r"[-+]?(\d+(\.\d*)?|\.\d+)([eE][-+]?\d+)?")
+    m = _ROW_RX.match(txt.strip())
+    return float(m.group()) if m else None
+
+
+def _row_numtext(rng, v, allow_unknown=True):
+    """a CIF spelling of the number v (or of 'unknown')"""
+    r = rng.random()
+    if allow_unknown and r < 0.07:
+        return "?"
+    if allow_unknown and r < 0.14:
+        return "."
+    nd = rng.choice([3, 4, 5, 6])
+    s = "%.*f" % (nd, v)
+    r = rng.random()
+    if r < 0.2:
+        s += "(%d)" % rng.randrange(1, 40)
+    elif r < 0.25:
+        s = "%.4e" % v
+    elif r < 0.3 and v >= 0:
+        s = "+" + s
+    return s
+
+
+def _row_case(rng, name):
+    """the same data name in another letter case (CIF data names are case-insensitive)"""
+    r = rng.random()
+    if r < 0.5:
+        return name
+    if r < 0.65:
+        return name.lower()
+    if r < 0.8:
+        return name.upper()
+    return "".join(c.upper() if rng.random() < 0.5 else c.lower() for c in name)
+
+
+def row_gen_block(rng, stratum=None):
+    """abstract block: cell (or none), site loop, optional aniso loop.  A loop is {"names": [...], "rows": [[text, ...], ...]}."""
+    stratum = stratum or rng.choice(["plain", "plain", "oneloop", "cartn", "mixed", "words", "bad", "qlabels", "dup"])
+    cellkind = rng.choice(["tric", "tric", "mono", "ortho", "cubic", "none", "hex"])
+    if cellkind == "tric":
+        cell = [rng.uniform(3, 12), rng.uniform(3, 12), rng.uniform(3, 12), rng.uniform(70, 110), rng.uniform(70, 110), rng.uniform(70, 110)]
+    elif cellkind == "mono":
+        cell = [rng.uniform(3, 12), rng.uniform(3, 12), rng.uniform(3, 12), 90.0, rng.uniform(91, 125), 90.0]
+    elif cellkind == "ortho":
+        cell = [rng.uniform(3, 12), rng.uniform(3, 12), rng.uniform(3, 12), 90.0, 90.0, 90.0]
+    elif cellkind == "cubic":
+        a = rng.uniform(3, 9)
+        cell = [a, a, a, 90.0, 90.0, 90.0]
+    elif cellkind == "hex":
+        a = rng.uniform(3, 9)
+        cell = [a, a, rng.uniform(4, 12), 90.0, 90.0, 120.0]
+    else:
+        cell = None
+    if cell is not None:
+        cell = [float("%.4f" % v) for v in cell]
+    natom = rng.choice([1, 2, 2, 3, 4])
+    names = ["_atom_site_label"]
+    if rng.random() < 0.7:
+        names.append("_atom_site_type_symbol")
+    r = rng.random()
+    if stratum == "cartn" or (stratum != "mixed" and r < 0.15):
+        names += ["_atom_site_Cartn_x", "_atom_site_Cartn_y", "_atom_site_Cartn_z"]
+    elif stratum == "mixed":
+        names += [rng.choice(["_atom_site_fract_%s", "_atom_site_Cartn_%s"]) % ax for ax in "xyz" if rng.random() < 0.85]
+    elif r < 0.9:
+        names += ["_atom_site_fract_x", "_atom_site_fract_y", "_atom_site_fract_z"]
+    else:
+        names += [n for n in ["_atom_site_fract_x", "_atom_site_fract_y", "_atom_site_fract_z"] if rng.random() < 0.6]
+    r = rng.random()
+    if r < 0.4:
+        names.append("_atom_site_U_iso_or_equiv")
+    elif r < 0.65:
+        names.append("_atom_site_B_iso_or_equiv")
+    elif r < 0.7:
+        names += ["_atom_site_U_iso_or_equiv", "_atom_site_B_iso_or_equiv"]
+    r = rng.random()
+    if r < 0.4:
+        names.append("_atom_site_adp_type")
+    elif r < 0.55:
+        names.append("_atom_site_thermal_displace_type")
+    elif r < 0.6:
+        names += ["_atom_site_adp_type", "_atom_site_thermal_displace_type"]
+    if rng.random() < 0.5:
+        names.append("_atom_site_occupancy")
+    if stratum == "oneloop" or rng.random() < 0.08:
+        pool = ROW_ANISO_U if rng.random() < 0.6 else ROW_ANISO_B
+        names += [n for n in pool if rng.random() < 0.85]
+    for _ in range(rng.choice([0, 0, 1, 2])):
+        u = rng.choice(ROW_UNKNOWN)
+        if u not in names:
+            names.append(u)
+    if rng.random() < 0.6:
+        head, tail = names[:1], names[1:]
+        rng.shuffle(tail)
+        names = head + tail if rng.random() < 0.5 else tail[: len(tail) // 2] + head + tail[len(tail) // 2:]
+    labels = []
+    rows = []
+    for i in range(natom):
+        lab = rng.choice(ROW_LABEL_WORDS) if stratum == "words" else "%s%d" % (rng.choice(["Na", "O", "C", "Fe", "Cl", "H"]), i + 1)
+        if stratum == "qlabels" and rng.random() < 0.4:
+            lab = "?"
+        if stratum == "dup" and labels and rng.random() < 0.5:
+            lab = rng.choice(labels)
+        labels.append(lab)
+        row = []
+        for n in names:
+            if n == "_atom_site_label":
+                row.append(lab)
+            elif n == "_atom_site_type_symbol":
+                row.append(rng.choice(ROW_TYPE_WORDS) if stratum == "words" or rng.random() < 0.3 else rng.choice(["Na1+", "O2-", "C", "Fe3+", "Cl1-", "H"]))
+            elif n in ("_atom_site_adp_type", "_atom_site_thermal_displace_type"):
+                row.append(rng.choice(ROW_ADP_WORDS) if rng.random() < 0.5 else rng.choice(["Uiso", "Uani", "Biso", "Bani"]))
+            elif n in ROW_UNKNOWN:
+                row.append(rng.choice(["d", "1", "4a", "?", ".", "0.25(3)", "Uani"]))
+            elif "Cartn" in n:
+                row.append(_row_numtext(rng, rng.uniform(-6, 12)))
+            elif "fract" in n:
+                row.append(_row_numtext(rng, rng.uniform(-0.3, 1.3)))
+            elif n == "_atom_site_occupancy":
+                row.append(_row_numtext(rng, rng.choice([1.0, 0.5, 0.25, rng.uniform(0, 1)])))
+            elif n == "_atom_site_U_iso_or_equiv":
+                row.append(_row_numtext(rng, rng.uniform(0.001, 0.08)))
+            elif n == "_atom_site_B_iso_or_equiv":
+                row.append(_row_numtext(rng, rng.uniform(0.1, 6.0)))
+            elif n in ROW_ANISO_U:
+                row.append(_row_numtext(rng, rng.uniform(-0.01, 0.01) if n[-2] != n[-1] else rng.uniform(0.002, 0.06)))
+            elif n in ROW_ANISO_B:
+                row.append(_row_numtext(rng, rng.uniform(-0.8, 0.8) if n[-2] != n[-1] else rng.uniform(0.2, 5.0)))
+            else:
+                row.append("?")
+        if stratum == "bad" and rng.random() < 0.4:
+            k = rng.randrange(len(names))
+            if names[k] != "_atom_site_label":
+                row[k] = rng.choice(["abc", "x1.5", "--1", "n/a", "e5"])
+        rows.append(row)
+    site = {"names": names, "rows": rows}
+    aniso = None
+    if rng.random() < 0.65:
+        pool = ROW_ANISO_U if rng.random() < 0.55 else ROW_ANISO_B
+        if rng.random() < 0.15:
+            pool = [rng.choice(p) for p in zip(ROW_ANISO_U, ROW_ANISO_B)]
+        an = ["_atom_site_aniso_label"] + [n for n in pool if rng.random() < 0.92]
+        if rng.random() < 0.2:
+            an.append(rng.choice(ROW_ANISO_UNKNOWN))
+        if rng.random() < 0.1:
+            an.append(rng.choice(["_atom_site_U_iso_or_equiv", "_atom_site_adp_type", "_atom_site_occupancy"]))
+        # a data name may occur only once in a block
+        taken = {n.lower() for n in names}
+        an = [n for n in an if n.lower() not in taken]
+        if rng.random() < 0.5:
+            rng.shuffle(an)
+        real = [lb for lb in labels if lb != "?"]
+        chosen = [lb for lb in dict.fromkeys(real) if rng.random() < 0.7] or real[:1]
+        rng.shuffle(chosen)
+        if chosen and rng.random() < 0.2:
+            chosen.insert(rng.randrange(len(chosen) + 1), "?")
+        if rng.random() < 0.06:
+            chosen.insert(rng.randrange(len(chosen) + 1), "Xx99")          # not in the site loop: KeyError -> format error
+        if chosen and rng.random() < 0.08:
+            chosen.append(rng.choice(chosen))                                 # an atom listed twice
+        arows = []
+        for lb in chosen:
+            row = []
+            for n in an:
+                if n == "_atom_site_aniso_label":
+                    row.append(lb)
+                elif n in ROW_ANISO_U:
+                    row.append(_row_numtext(rng, rng.uniform(-0.01, 0.01) if n[-2] != n[-1] else rng.uniform(0.002, 0.06)))
+                elif n in ROW_ANISO_B:
+                    row.append(_row_numtext(rng, rng.uniform(-0.8, 0.8) if n[-2] != n[-1] else rng.uniform(0.2, 5.0)))
+                elif n == "_atom_site_U_iso_or_equiv":
+                    row.append(_row_numtext(rng, rng.uniform(0.001, 0.08)))
+                elif n == "_atom_site_adp_type":
+                    row.append(rng.choice(["Uiso", "Uani"]))
+                elif n == "_atom_site_occupancy":
+                    row.append(_row_numtext(rng, rng.uniform(0, 1)))
+                else:
+                    row.append(rng.choice(["O", "?", "1.2"]))
+            if stratum == "bad" and rng.random() < 0.2 and len(an) > 1:
+                k = rng.randrange(len(an))
+                if an[k] != "_atom_site_aniso_label":
+                    row[k] = "bad"
+            arows.append(row)
+        if arows:
+            aniso = {"names": an, "rows": arows}
+    return {"cell": cell, "site": site, "aniso": aniso, "stratum": stratum}
+
+
+def _row_cifword(t):
+    if t == "" or any(c in t for c in " \t'\"") or t[0] in "_#$[];" or t.lower().startswith(("data_", "loop_", "save_", "global_", "stop_")):
+        return "'%s'" % t if "'" not in t else '"%s"' % t
+    return t
+
+
+def row_render(rng, blk, case=True, loops_first=False):
+    """CIF text of an abstract block in space group P1"""
+    L = ["data_row"]
+    cellpart = []
+    if blk["cell"] is not None:
+        for k, v in zip(("_cell_length_a", "_cell_length_b", "_cell_length_c", "_cell_angle_alpha", "_cell_angle_beta", "_cell_angle_gamma"), blk["cell"]):
+            cellpart.append("%s %.4f" % (k, v))
+    sym = ["_symmetry_space_group_name_H-M 'P 1'"]
+    loops = []
+    for lp in (blk["site"], blk["aniso"]):
+        if lp is None:
+            continue
+        part = ["loop_"] + [(_row_case(rng, n) if case else n) for n in lp["names"]]
+        part += [" ".join(_row_cifword(t) for t in row) for row in lp["rows"]]
+        loops.append(part)
+    if loops_first:
+        loops.reverse()
+        parts = loops + [cellpart, sym]
+    else:
+        parts = [cellpart, sym] + loops
+    for p in parts:
+        L += p + [""]
+    return "\n".join(L) + "\n"
+
+
+def row_lattice(blk):
+    from diffpy.structure import Lattice
+
+    return Lattice(*blk["cell"]) if blk["cell"] is not None else Lattice()
+
+
+def _row_hex(t):
+    return "x" + t.encode("ascii").hex()
+
+
+def _row_unhex(w):
+    return bytes.fromhex(w[1:]).decode("ascii")
+
+
+def row_model_line(blk):
+    from .c09 import bits, lat_words
+
+    def loopwords(lp):
+        ws = [str(len(lp["names"])), str(len(lp["rows"]))] + [n.lower() for n in lp["names"]]
+        for row in lp["rows"]:
+            for t in row:
+                x = _row_number(t)
+                ws.append("%s:%s" % (_row_hex(t), "-" if x is None else bits(x)))
+        return ws
+
+    ws = ["cifrow.parse"] + lat_words(row_lattice(blk)) + loopwords(blk["site"])
+    ws += ["0"] if blk["aniso"] is None else ["1"] + loopwords(blk["aniso"])
+    return " ".join(ws)
+
+
+def row_real(text):
+    """parse `text` with the real reader; snapshot of the atoms right after the two loops (before the symmetry expansion).
+    Returns ("err", message) for the documented format error, ("exc", repr) for any other exception, else ("ok", atoms)."""
+    import numpy as np
+    from diffpy.structure import Atom
+    from diffpy.structure.parsers.p_cif import P_cif
+    from diffpy.structure.structureerrors import StructureFormatError
+
+    class Probe(P_cif):
+        snap = None
+
+        def _parse_space_group_symop_operation_xyz(self, block):
+            out = []
+            for a in self.stru:
+                c = Atom(a)
+                out.append({"element": c.element, "label": c.label, "xyz": [float(v) for v in c.xyz], "occ": float(c.occupancy),
+                            "aniso": bool(c.anisotropy), "U": [float(v) for v in np.array(c.U).reshape(9)], "uiso": float(c.Uisoequiv),
+                            "li": self.labelindex.get(c.label), "an": self.anisotropy.get(c.label)})
+            self.snap = out
+            self.snapkeys = (sorted(self.labelindex), sorted(self.anisotropy))
+            return P_cif._parse_space_group_symop_operation_xyz(self, block)
+
+    p = Probe()
+    try:
+        p.parse(text)
+    except StructureFormatError as e:
+        return "err", str(e)
+    except Exception as e:  # noqa: BLE001
+        return "exc", repr(e)
+    if p.snap is None:
+        return "exc", "no structure"
+    return "ok", p.snap
+
+
+def row_parse_model(o):
+    from .c09 import unbits
+
+    if o in ("err", "empty", "bad-op"):
+        return o, []
+    atoms = []
+    for blk in o.split(" | "):
+        w = blk.split()
+        atoms.append({"element": _row_unhex(w[0]), "label": _row_unhex(w[1]), "xyz": [unbits(x) for x in w[2:5]], "occ": unbits(w[5]),
+                      "aniso": w[6] == "1", "U": [unbits(x) for x in w[7:16]], "uiso": unbits(w[16]),
+                      "li": None if w[17] == "-" else int(w[17]), "an": None if w[18] == "-" else w[18] == "1"})
+    return "ok", atoms
+
+
+def row_diff(A, B, tol=1e-9):
+    """first difference between two atom snapshots (lists of dicts), None when they agree"""
+    if len(A) != len(B):
+        return "%d / %d atoms" % (len(A), len(B))
+    for i, (a, b) in enumerate(zip(A, B)):
+        for k in ("element", "label", "aniso", "li", "an"):
+            if a[k] != b[k]:
+                return "atom %d %s: %r / %r" % (i, k, a[k], b[k])
+        for k in ("xyz", "U"):
+            sc = max([1.0] + [abs(x) for x in a[k]]) if k == "xyz" else max([1e-3] + [abs(x) for x in a[k]])
+            for x, y in zip(a[k], b[k]):
+                if not abs(x - y) <= tol * sc:
+                    return "atom %d %s: %r / %r" % (i, k, a[k], b[k])
+        for k in ("occ", "uiso"):
+            if not abs(a[k] - b[k]) <= tol * max(1e-3, abs(a[k])):
+                return "atom %d %s: %r / %r" % (i, k, a[k], b[k])
+    return None
+
+
+# --- hypotheses of DS.Props.C07Row.row_col_perm, evaluated on an abstract row (mirror of `RowOK`) ----------------
+
+def _row_slot(n):
+    n = n.lower()
+    if n == "_atom_site_label":
+        return "label"
+    if n == "_atom_site_type_symbol":
+        return "type"
+    for ax in "xyz":
+        if n in ("_atom_site_fract_" + ax, "_atom_site_cartn_" + ax):
+            return "pos" + ax
+    if n in ("_atom_site_u_iso_or_equiv", "_atom_site_b_iso_or_equiv"):
+        return "iso"
+    if n in ("_atom_site_adp_type", "_atom_site_thermal_displace_type"):
+        return "adp"
+    if n == "_atom_site_occupancy":
+        return "occ"
+    for ij in ("11", "22", "33", "12", "13", "23"):
+        if n in ("_atom_site_aniso_u_" + ij, "_atom_site_aniso_b_" + ij):
+            return "u" + ij
+    return None
+
+
+def row_ok(names, row, flag):
+    """RowOK of the Lean theorem for a row applied to an atom whose anisotropy flag is `flag`"""
+    slots = [_row_slot(n) for n in names]
+    real = [s for s in slots if s]
+    if len(set(real)) != len(real):
+        return False
+    low = [n.lower() for n in names]
+    if any("_fract_" in n for n, s in zip(low, slots) if s and s.startswith("pos")) and any("_cartn_" in n for n, s in zip(low, slots) if s and s.startswith("pos")):
+        return False
+    if "label" in real and "type" in real and row[slots.index("type")] == "":
+        return False
+    d = [(s, t) for s, t in zip(slots, row) if s in ("iso", "adp") or (s and s[0] == "u")]
+    adpv = [t not in ("Uiso", "Biso") for s, t in d if s == "adp"]
+    only_ia = all(s in ("iso", "adp") for s, _ in d)
+    if only_ia and (not flag or all(adpv)):
+        return True                                                                  # DA
+    if flag and all((s[0] == "u" and s != "adp") or (s == "adp" and t not in ("Uiso", "Biso")) for s, t in d if s != "iso") and not any(s == "iso" for s, _ in d):
+        return True                                                                  # DB
+    if (not flag) and not any(adpv) and sum(1 for s, _ in d if s in ("iso", "u11", "u22", "u33")) <= 1:
+        return True                                                                  # DC
+    return False
+
+
+ROW_LAYOUTS = {
+    # key -> (column names order 1, order 2, one row as a dict name -> text): one-loop layouts that violate the hypotheses
+    "adp_type-after-aniso_U": (["_atom_site_label", "_atom_site_fract_x", "_atom_site_fract_y", "_atom_site_fract_z", "_atom_site_adp_type"] + ROW_ANISO_U,
+                               ["_atom_site_label", "_atom_site_fract_x", "_atom_site_fract_y", "_atom_site_fract_z"] + ROW_ANISO_U + ["_atom_site_adp_type"],
+                               ["C1", "0.1", "0.2", "0.3", "Uani", "0.01", "0.02", "0.03", "0.001", "0.002", "0.003"]),
+    "U_iso-before-aniso_U-of-iso-atom": (["_atom_site_label", "_atom_site_fract_x", "_atom_site_fract_y", "_atom_site_fract_z", "_atom_site_aniso_U_11", "_atom_site_adp_type", "_atom_site_U_iso_or_equiv"],
+                                         ["_atom_site_label", "_atom_site_fract_x", "_atom_site_fract_y", "_atom_site_fract_z", "_atom_site_U_iso_or_equiv", "_atom_site_adp_type", "_atom_site_aniso_U_11"],
+                                         ["C1", "0.1", "0.2", "0.3", ".", "Uiso", "0.025"]),
+    "U_equiv-after-aniso_U": (["_atom_site_label", "_atom_site_fract_x", "_atom_site_fract_y", "_atom_site_fract_z", "_atom_site_adp_type", "_atom_site_U_iso_or_equiv"] + ROW_ANISO_U,
+                              ["_atom_site_label", "_atom_site_fract_x", "_atom_site_fract_y", "_atom_site_fract_z", "_atom_site_adp_type"] + ROW_ANISO_U + ["_atom_site_U_iso_or_equiv"],
+                              ["C1", "0.1", "0.2", "0.3", "Uani", "0.02", "0.01", "0.02", "0.03", "0.001", "0.002", "0.003"]),
+    "empty-type_symbol-after-label": (["_atom_site_type_symbol", "_atom_site_label", "_atom_site_fract_x", "_atom_site_fract_y", "_atom_site_fract_z"],
+                                      ["_atom_site_label", "_atom_site_type_symbol", "_atom_site_fract_x", "_atom_site_fract_y", "_atom_site_fract_z"],
+                                      ["", "C1", "0.1", "0.2", "0.3"]),
+}
+
+
+def row_layout_texts(key):
+    n1, n2, row = ROW_LAYOUTS[key]
+    byname = dict(zip(n1, row))
+    cell = [4.0, 5.0, 6.0, 80.0, 95.0, 100.0]
+    out = []
+    for names in (n1, n2):
+        blk = {"cell": cell, "site": {"names": names, "rows": [[byname[n] for n in names]]}, "aniso": None}
+        out.append(row_render(None, blk, case=False))
+    return out
+
+
+def row_stream(ck, ncases):
+    """random abstract blocks -> CIF text -> real reader (snapshot before expansion) vs the Lean model; and, for rows that satisfy the
+    hypotheses of `row_col_perm`, the same block with every loop's columns permuted must read the same on the real reader."""
+    import random
+
+    rng = random.Random(ck.rng.random())
+    blocks = [row_gen_block(rng) for _ in range(ncases)]
+    lines = [row_model_line(b) for b in blocks]
+    try:
+        outs = common.driver(lines)
+    except common.DriverBroken as e:
+        outs = [None] * len(lines)
+        ck.notes.append("driver unavailable for cifrow: %s" % str(e)[:300])
+    nerr = nperm = nok = 0
+    strata_seen = {}
+    for blk, ln, o in zip(blocks, lines, outs):
+        text = row_render(rng, blk, loops_first=rng.random() < 0.25)
+        kind, real = row_real(text)
+        strata_seen[blk["stratum"]] = strata_seen.get(blk["stratum"], 0) + 1
+        ck.coverage["evaluations"] += 1
+        repl = {"kind": "row", "cif": text, "block": blk}
+        if kind == "exc":
+            ck.fail("row:%s:exception" % blk["stratum"], "reading a rendered atom-site block raised %s (documented error: StructureFormatError)" % real, dict(repl, observed=real))
+            continue
+        if o is None:
+            continue
+        ck.coverage["traces_validated_against_impl"] += 1
+        mkind, model = row_parse_model(o)
+        if mkind == "bad-op":
+            ck.fail("row:model-bad-op", "the model driver rejected a cifrow line", {"kind": "correspondence", "driver_line": ln[:3000], "theorem": "stream cifrow.parse"}, no_failing_input=True)
+            continue
+        if kind == "err" or mkind == "err":
+            nerr += 1
+            if kind != mkind:
+                what = ("the reader rejects the block (%s), the row model DS.Model.CifRow accepts it" % real) if kind == "err" else \
+                    "the reader accepts a block that the row model DS.Model.CifRow rejects (a value that is not a number, or an aniso label not in the site loop)"
+                ck.fail("row:%s:accept" % blk["stratum"], what, dict(repl, model=o[:1500], expected_kind=mkind, observed_kind=kind))
+            continue
+        d = row_diff(real, model)
+        if d:
+            ck.fail("row:%s:atoms" % blk["stratum"], "atoms after the atom-site and aniso loops differ from the row model DS.Model.CifRow (implementation / model): %s" % d,
+                    dict(repl, expected=model, observed=real, detail=d))
+            continue
+        nok += 1
+        # column permutation on the real reader, where the theorem says it must not matter
+        flags0 = {}
+        site_ok = all(row_ok(blk["site"]["names"], r, False) for r in blk["site"]["rows"])
+        aniso_ok = True
+        if blk["aniso"] is not None:
+            ilb = blk["aniso"]["names"].index("_atom_site_aniso_label")
+            known = {a["label"]: a for a in real}
+            seen = set()
+            for r in blk["aniso"]["rows"]:
+                if r[ilb] == "?":
+                    break
+                if r[ilb] in seen or r[ilb] not in known:
+                    aniso_ok = False
+                    break
+                seen.add(r[ilb])
+                # the flag of the atom when its aniso row is applied: resolved by an adp_type column, else forced on
+                does = any(_row_slot(n) == "adp" for n in blk["site"]["names"])
+                a_site = None
+                for sr in blk["site"]["rows"]:
+                    if sr[blk["site"]["names"].index("_atom_site_label")] == r[ilb]:
+                        a_site = sr
+                flag = True
+                if does and a_site is not None:
+                    flag = [t not in ("Uiso", "Biso") for n, t in zip(blk["site"]["names"], a_site) if _row_slot(n) == "adp"][-1]
+                if not row_ok(blk["aniso"]["names"], r, flag):
+                    aniso_ok = False
+                    break
+        dup = len({r[blk["site"]["names"].index("_atom_site_label")] for r in blk["site"]["rows"]}) != len(blk["site"]["rows"])
+        if site_ok and aniso_ok and not dup:
+            blk2 = {"cell": blk["cell"], "stratum": blk["stratum"], "site": _row_permute(rng, blk["site"]),
+                    "aniso": None if blk["aniso"] is None else _row_permute(rng, blk["aniso"], rows_too=True)}
+            text2 = row_render(rng, blk2, loops_first=rng.random() < 0.5)
+            kind2, real2 = row_real(text2)
+            nperm += 1
+            ck.coverage["evaluations"] += 1
+            d2 = "second order is rejected: %s" % (real2,) if kind2 != "ok" else row_diff(real, real2, tol=1e-7)
+            if d2:
+                ck.fail("row:%s:colorder" % blk["stratum"], "the same atom-site data with the loop columns (and aniso rows) in another order read differently: %s" % d2,
+                        dict(repl, other_cif=text2, detail=d2, theorem="DS.Props.C07Row.row_col_perm / aniso_loop_order"))
+    # one-loop layouts outside the hypotheses of row_col_perm: each is a pair of CIF texts differing only in column order
+    for key in sorted(ROW_LAYOUTS):
+        t1, t2 = row_layout_texts(key)
+        k1, r1 = row_real(t1)
+        k2, r2 = row_real(t2)
+        ck.coverage["evaluations"] += 2
+        d = None if (k1, k2) == ("ok", "ok") and row_diff(r1, r2, tol=1e-7) is None else (row_diff(r1, r2, tol=1e-7) if (k1, k2) == ("ok", "ok") else "%s / %s" % (k1, k2))
+        if d:
+            ck.fail("roworder:%s" % key, "two CIF texts that differ only in the order of the atom_site loop columns read differently (%s): %s" % (key, d),
+                    {"kind": "roworder", "layout": key, "cif": t1, "other_cif": t2, "detail": d, "theorem": "DS.Props.C07Row.row_order_dependent_*"})
+    ck.coverage["row_stream"] = {"blocks": len(blocks), "agree": nok, "rejected_by_both": nerr, "column_permutations": nperm, "strata": strata_seen}
+    if blocks and outs and outs[0] is not None:
+        ck.coverage["samples"] = list(ck.coverage.get("samples") or [])[:2] + [{"driver": lines[0][:200], "model": outs[0][:200]}]
+    return nok
+
+
+def _row_permute(rng, lp, rows_too=False):
+    order = list(range(len(lp["names"])))
+    rng.shuffle(order)
+    rows = [[r[i] for i in order] for r in lp["rows"]]
+    if rows_too:
+        ilb = lp["names"].index("_atom_site_aniso_label")
+        if not any(r[ilb] == "?" for r in lp["rows"]):
+            rng.shuffle(rows)
+    return {"names": [lp["names"][i] for i in order], "rows": rows}
